@@ -53,12 +53,12 @@ FLOORS = {
               "law.stacked": 10000, "law.component-height": 15000, "law.factors": 1100, "law.linkage": 1100, "law.inverse": 120, "law.temperature": 450,
               "hook:AxialExpansionChanger.axiallyExpandAssembly": 1100, "construction.expandColdDimsToHot": 70,
               "law.input-to-hot-mass": 500, "law.input-to-hot-mass.tight": 500, "law.input-to-hot-mass.loose": 6, "law.fluid-density-untouched": 1100,
-              "law.inverse-fluid": 1700, "law.target-designation": 5200, "law.unsorted-grid": 85},
+              "law.inverse-fluid": 1700, "law.target-designation": 5200, "law.unsorted-grid": 85, "thermal.field-at-zero-celsius": 30},
     "thorough": {"law.height": 13000, "law.contiguity": 13000, "law.grid": 13000, "law.boundary": 65000, "law.target-mass": 65000, "law.uniform-solid-mass": 55000,
                  "law.stacked": 130000, "law.component-height": 190000, "law.factors": 13000, "law.linkage": 13000, "law.inverse": 1500, "law.temperature": 5500,
                  "hook:AxialExpansionChanger.axiallyExpandAssembly": 13000, "construction.expandColdDimsToHot": 800,
                  "law.input-to-hot-mass": 6500, "law.input-to-hot-mass.tight": 6500, "law.input-to-hot-mass.loose": 100, "law.fluid-density-untouched": 13000,
-                 "law.inverse-fluid": 21000, "law.target-designation": 65000, "law.unsorted-grid": 1100},
+                 "law.inverse-fluid": 21000, "law.target-designation": 65000, "law.unsorted-grid": 1100, "thermal.field-at-zero-celsius": 350},
 }
 TIMEOUT = {"quick": 600, "thorough": 3600}
 ASSUMPTIONS = [
@@ -666,6 +666,8 @@ def gen_field(rng, a, force_iso=False):
     lo, hi = 300.0, 650.0
     if mode == "isothermal":
         t = rng.uniform(lo, hi)
+        if rng.random() < .12:
+            t = 0.0  # boundary value: exactly 0 C (falsy in python) as the temperature a later step expands from
         field = [t] * len(grid)
     elif mode == "ramp":
         t0, t1 = rng.uniform(lo, hi), rng.uniform(lo, hi)
@@ -808,6 +810,8 @@ class Driver:
         ch = ch or self.changer(rng)
         w = dict(self.w, op={"kind": "thermal", "mode": mode, "grid": grid[:60], "field": field[:60], "setFuel": setFuel}, history=list(self.history))
         means = block_mean_temps(a, grid, field)
+        if field and all(t == 0.0 for t in field):
+            rec.hit("thermal.field-at-zero-celsius")
         unsorted = any(grid[k] > grid[k + 1] for k in range(len(grid) - 1))
         scan = scan_stopping_at_first_higher_point(a, grid, field) if unsorted else means
         w["op"]["grid_ascending"] = not unsorted
